@@ -41,13 +41,28 @@ class Conv:
     def mode(self, m):
         return {"mc": "MustCreate", "mr": "MustReplace", "cor": "CreateOrReplace"}.get(m)
 
-    def rpc(self, q, strict=False):
+    APPEND = {"CREATE_OR_APPEND": "CreateOrReplace", "MUST_APPEND": "MustReplace"}
+
+    def existed_at_processing(self, h, c):
+        """Did the key exist when the simulated node executed write (h, c)? (recorded by the harness on the process step)"""
+        for ev, st in zip(self.t["events"], self.t["steps"]):
+            if ev.get("e") == "proc" and ev.get("h") == h and ev.get("c") == c and "existed" in st:
+                return st["existed"]
+        return False
+
+    def rpc(self, q, strict=False, hc=None):
         """strict: None for every request the model has no term for. Otherwise a waitsendpay that carries a timeout is lowered to
         the plain wait (the part it waits for is the same; the node's "timed out" answer is the event GTimeout)."""
         k = q["k"]
         if k == "liststate": return "QListState"
         if k == "wstate":
             m = self.mode(q["mode"])
+            if m is None and not strict and q["mode"] in self.APPEND and hc is not None:
+                # lowering of lightningd's append modes (the unchanged plugin never uses them): on an absent key an append creates
+                # the record; on an existing key the stored string becomes the concatenation of two JSON documents - garbage
+                # for every reader. must-append fails on an absent key exactly as must-replace does.
+                garbage = self.existed_at_processing(*hc)
+                return "(QWriteState %s %s %s)" % (self.APPEND[q["mode"]], coq_opt(q["gen"], str), "DGarbage" if garbage else self.dsval(q["val"]))
             if m is None: return None
             return "(QWriteState %s %s %s)" % (m, coq_opt(q["gen"], str), self.dsval(q["val"]))
         if k == "watt":
@@ -86,7 +101,7 @@ class Conv:
             r = self.response(o["r"])
             return "(GResp %d %s)" % (o["uid"], r) if r else "GOther"
         if k == "call":
-            q = self.rpc(o["q"])
+            q = self.rpc(o["q"], hc=(o["h"], o["c"]))
             if q is None or o["h"] is None: return "GOther"
             return "(GCall %d%%nat %d%%nat %s)" % (o["h"], o["c"], q)
         if k == "cancel": return "(GCancel %d%%nat %d%%nat)" % (o["h"], o["c"]) if o["h"] is not None else "GOther"
@@ -142,7 +157,7 @@ class Conv:
 
     def interpretable(self):
         """True when every out-of-vocabulary output has a lowering (the monitors can still read the trace)."""
-        return all(o["o"] == "call" and self.rpc(o["q"]) is not None for _, o in self.out_of_vocabulary())
+        return all(o["o"] == "call" and self.rpc(o["q"], hc=(o.get("h"), o.get("c"))) is not None for _, o in self.out_of_vocabulary())
 
     def out_of_vocabulary(self):
         """Outputs of the implementation that the model has no term for (an RPC with arguments the plugin never uses on the
